@@ -7,6 +7,7 @@ import (
 	"os"
 
 	"verif/harness/internal/scen"
+	"verif/harness/internal/zoo"
 )
 
 // standaloneProduct enumerates kind × N × first-success index × fallback × prep × post.
@@ -122,6 +123,34 @@ func runC01(c *Cfg) {
 		judgeFor(c, "C01", "action-typed-payload", ap[i])
 		r.Count("action_typed_payload.cases", 1)
 		r.Nontrivial("ap:" + scenSig(ap[i]))
+	})
+	// one-shot stream payloads (and the other late zoo entries): prep still runs once, every attempt, the fallback and
+	// post see the very value prep returned
+	var rp []*scen.Scenario
+	for _, name := range []string{"reader-bytes-buffer", "reader-bufio", "reader-strings", "map-any-any", "anyslice-holding-map-any-any"} {
+		zi := zoo.Index(name)
+		for kind := 0; kind < scen.NumScriptedKinds; kind++ {
+			for n := 1; n <= 4; n++ {
+				for k := 1; k <= n+1; k++ {
+					ns := scen.NodeSpec{Kind: kind, N: n, HasFB: scen.KindCanFB(kind) && (kind >= scen.KFnOptRes && k%2 == 0 || kind < scen.KFnOptRes), Visits: []scen.Visit{{FirstOK: k, Post: "go", Payload: zi}}}
+					rp = append(rp, &scen.Scenario{Nodes: []scen.NodeSpec{ns}, Root: 0, Runs: 1})
+					rp = append(rp, &scen.Scenario{Nodes: []scen.NodeSpec{ns, {Kind: scen.KFlow, N: 1, Flow: &scen.FlowSpec{Start: 0}}}, Root: 1, Runs: 1})
+				}
+			}
+		}
+	}
+	parallel(c, len(rp), func(i int) {
+		judgeFor(c, "C01", "stream-payload", rp[i])
+		r.Count("stream_payload.cases", 1)
+		r.Nontrivial("rp:" + scenSig(rp[i]))
+	})
+	// nodes inside flows that carry a retry budget of their own (nested 0..3 deep): each flow attempt runs the nodes
+	// with the store given to the run, each node's lifecycle is complete within its attempt
+	fr := flowRetryCases()
+	parallel(c, len(fr), func(i int) {
+		judgeFor(c, "C01", "inside-retried-flow", fr[i])
+		r.Count("inside_retried_flow.cases", 1)
+		r.Nontrivial("fr:" + scenSig(fr[i]))
 	})
 	r.Exhaustive = true
 	r.Note(fmt.Sprintf("standalone product enumerated completely: %d cases (11 node kinds x budgets 1..8 x first-success index 1..N+1 x fallback x prep x post)", len(cases)))
